@@ -1,6 +1,7 @@
 package rel
 
 import (
+	"fmt"
 	"sort"
 )
 
@@ -11,7 +12,10 @@ func Rank(s Set, rankerf func(v Tuple) (Tuple, error)) (Set, error) {
 	}
 	entries := []rankerEntry{}
 	for e := s.Enumerator(); e.MoveNext(); {
-		input := e.Current().(Tuple)
+		input, is := e.Current().(Tuple)
+		if !is {
+			return nil, fmt.Errorf("rank: lhs must be a set of tuples, found %s", ValueTypeAsString(e.Current()))
+		}
 		rankers, err := rankerf(input)
 		if err != nil {
 			return nil, err
